@@ -306,7 +306,7 @@ theorem step_owner {s s' : S} {e : Ev} (h : step s e = some s') : OwnerStep s s'
           · rename_i hc
             simp only [ne_eq, Bool.or_eq_true, decide_eq_true_eq, not_or, Decidable.not_not] at hc
             simp only [Option.some.injEq] at h; subst h
-            refine .done op rfl (by intro op' h; exact h.symm) (by intro pk he; cases he) (by simpa using hnd) rfl rfl ?_
+            refine .done op rfl (by intro op' h; exact h.symm) (by intro pk he; cases he) (by have := hnd; simp only [Bool.or_eq_true, not_or, Bool.not_eq_true] at this; exact this.1) rfl rfl ?_
             intro q; exact owner_free hp hs hc.1 q
   | doneOther op =>
     simp only [step] at h
@@ -340,6 +340,8 @@ theorem step_owner {s s' : S} {e : Ev} (h : step s e = some s') : OwnerStep s s'
     · simp only [Option.some.injEq] at h; subst h; exact .sameOf rfl rfl (fun _ => rfl) (fun _ h => h) (by intro pk he; cases he)
     · simp at h
 
+  | cancelAll => simp only [step, Option.some.injEq] at h; subst h; exact .sameOf rfl rfl (fun _ => rfl) (fun _ h => h) (by intro pk he; cases he)
+  | restart => simp only [step, Option.some.injEq] at h; subst h; exact .sameOf rfl rfl (fun _ => rfl) (fun _ h => h) (by intro pk he; cases he)
 /-- identity bookkeeping: completions, identifier ↔ operation, related to the history -/
 structure IdInv (hist : List Ev) (s : S) : Prop where
   done_iff : ∀ op, s.isDone op = true ↔ doneIn hist op
